@@ -43,6 +43,10 @@ func c16Sizes() []struct {
 		{"10u", 10}, {"12b", 12 * bankPEG}}
 }
 
+// c16Exec is the height at which every scenario's requests execute (funding 289..292, then either a graded filler
+// block 293 and the requests in 294, or the requests spread over 293 and the ungraded 294).
+const c16Exec = 295
+
 func c16Era(kind string) drive.Era {
 	switch kind {
 	case "perheight":
@@ -54,13 +58,20 @@ func c16Era(kind string) drive.Era {
 		e.Name = "bank-pooled"
 		return e
 	}
-	// straddle: the fork arrives at the executing block (height 297) or one block later
+	if kind == "limit-at-exec" {
+		// the limit itself activates at the executing block (295): requests held from before are the first to be limited
+		e := drive.EraStage(drive.StOneWayFCT)
+		e.Name = "bank-limit-activates-at-exec"
+		e.ConvLimit, e.FreeFloat = c16Exec, c16Exec
+		return e
+	}
+	// straddle: the fork arrives at the executing block (height 295) or one block later
 	e := drive.EraStage(drive.StBank)
 	e.Name = "bank-" + kind
 	if kind == "fork-at-exec" {
-		e.V4, e.RCDe = 297, 297
+		e.V4, e.RCDe = c16Exec, c16Exec
 	} else {
-		e.V4, e.RCDe = 298, 298
+		e.V4, e.RCDe = c16Exec+1, c16Exec+1
 	}
 	return e
 }
@@ -97,12 +108,12 @@ func runC16(c *core.Ctx, r *core.Result) {
 	rec(0, nil)
 	placements := []string{"separate", "onebatch", "spread"}
 	idx := 0
-	for _, ek := range []string{"perheight", "pooled", "fork-at-exec", "fork-after-exec"} {
+	for _, ek := range []string{"perheight", "pooled", "fork-at-exec", "fork-after-exec", "limit-at-exec"} {
 		era := c16Era(ek)
 		var w *World
 		for _, pl := range placements {
 			for _, ms := range multisets {
-				if (ek == "fork-at-exec" || ek == "fork-after-exec") && !c.Thorough() && len(ms) > 2 {
+				if (ek == "fork-at-exec" || ek == "fork-after-exec" || ek == "limit-at-exec") && !c.Thorough() && len(ms) > 2 {
 					continue
 				}
 				if pl == "onebatch" && len(ms) < 2 {
@@ -176,6 +187,9 @@ func c16One(c *core.Ctx, r *core.Result, w *World, era drive.Era, placement stri
 		height uint32
 	}
 	var ps []placed
+	if placement != "spread" {
+		b.Add(drive.BlockSpec{Rates: R1(), OPRPayTo: kit.AddrStr(KM)}) // filler: every placement executes at c16Exec
+	}
 	h1 := b.Next()
 	var blk1, blk2 []fake.Entry
 	switch placement {
@@ -215,6 +229,9 @@ func c16One(c *core.Ctx, r *core.Result, w *World, era drive.Era, placement stri
 		b.Add(drive.BlockSpec{TX: blk2}) // ungraded
 	}
 	hExec := b.Next()
+	if hExec != c16Exec {
+		panic(fmt.Sprintf("harness: C16 scenario executes at %d, eras are aligned on %d", hExec, c16Exec))
+	}
 	b.Add(drive.BlockSpec{Rates: execRates, OPRPayTo: kit.AddrStr(KM)})
 	b.Add(drive.BlockSpec{Rates: R1(), OPRPayTo: kit.AddrStr(KM)})
 	pre, err := ReadLedger(drive.DBFileOf(w.DBPath))
